@@ -25,7 +25,7 @@ def classify(g, diags):
 def run(tier, replay=None):
     c = vlib.Check("C13", tier, "model_checking")
     wd = c.wd
-    deps = rsprog.Deps(())
+    deps = rsprog.Deps((), pkg="min")      # the programs use nothing but scale-info itself
     if replay:
         ok, diags = deps.compile(replay, os.path.join(wd, "replay_bin"))
         if not ok: c.violation("replay", "does not compile: %s" % (diags[0]["message"] if diags else "?"), replay)
